@@ -555,6 +555,8 @@ class Snippet:
         self.expanding = set()
         self.assumed = set()
         self.lit = "Cxx.litR"
+        self.renamed = {}
+        self.always = set()      # variables passed to every loop head even when the loop does not mention them
         self.functions = {}      # other member functions of Json::Private that may be inlined: name -> (params, body)
         self.inlining = set()
 
@@ -573,7 +575,7 @@ class Snippet:
 
     def lean_of(self, v):
         k = v[0]
-        if k == "ptr":
+        if k in ("ptr", "bptr"):
             return self.ptr_lean(v)
         if k in ("bytes", "nat", "bool", "out"):
             return v[1]
@@ -595,6 +597,13 @@ class Snippet:
 
     # ---- expressions -------------------------------------------------------------------------------------
     def read(self, p, i, env, k):
+        if p[0] == "bptr":
+            # a pointer known by the bytes BEFORE it (nearest first): p[i] for i < 0 is element off - i - 1 of that list
+            off = p[2] - i - 1
+            if i >= 0 and p[2] + 0 <= i:
+                raise Refuse(f"{self.prefix}: read at or behind a cursor that is only known by the bytes in front of it")
+            var = self.fresh("c")
+            return ("rd", self.rd, p[1], off, var, k(("byte", var), env))
         if p[0] != "ptr":
             raise Refuse(f"{self.prefix}: dereference of a {p[0]} value")
         off = p[2] + i
@@ -615,6 +624,13 @@ class Snippet:
             return ("const", r)
         if a[0] == "ptr" and cb is not None and op in "+-":
             return ("ptr", a[1], a[2] + (cb if op == "+" else -cb))
+        if a[0] == "bptr" and cb is not None and op in "+-":
+            off = a[2] + (cb if op == "-" else -cb)
+            if off < 0:
+                raise Refuse(f"{self.prefix}: a backwards-known cursor is moved forwards past its origin")
+            return ("bptr", a[1], off)
+        if a[0] == "bptr" and b[0] == "bptr" and op == "-":
+            return ("nat", f"({self.ptr_lean(a)}.length - {self.ptr_lean(b)}.length)")
         if a[0] == "out" and b[0] == "outstart" and op == "-" and a[2] == b[1]:
             return ("outlen", a[2])
         kinds = {a[0], b[0]} - {"const"}
@@ -635,6 +651,8 @@ class Snippet:
         ca, cb = self.const_of(a), self.const_of(b)
         if ca is not None and cb is not None:
             return ("cbool", {"==": ca == cb, "!=": ca != cb, "<": ca < cb, ">": ca > cb, "<=": ca <= cb, ">=": ca >= cb}[op])
+        if a[0] == "bptr" and b[0] == "bstart" and op == ">":
+            return ("prop", f"{self.ptr_lean(a)} ≠ []")
         kinds = {a[0], b[0]} - {"const"}
         if not (kinds <= {"nat", "byte"} or kinds <= {"int"}):
             raise Refuse(f"{self.prefix}: comparison of {a[0]} and {b[0]}")
@@ -653,7 +671,7 @@ class Snippet:
 
     def setvar(self, env, name, v, ctx):
         if name not in env:
-            if name not in ("token.value", "token.token"):
+            if name not in ("token.value", "token.token", "errorLine", "errorColumn", "errorString"):
                 raise Refuse(f"{self.prefix}: assignment to the unknown variable `{name}`")
             env = dict(env)
             env[name] = (("uninit", "Variant"), 9999, 0)
@@ -731,6 +749,8 @@ class Snippet:
         if t == "cast":
             def cast(v, env2):
                 ty = e[1]
+                if ty == "int" and v[0] == "nat":          # a small non-negative difference of two cursors
+                    return k(v, env2)
                 if ty == "int" and v[0] == "int":
                     return k(("int", f"(wrap32 {v[1]})", "int"), env2)
                 if ty == "int64" and v[0] == "int":
@@ -767,7 +787,8 @@ class Snippet:
                     v2 = self.arith(op[0], self.lookup(env2, nm)[0], v)
                 else:
                     v2 = v
-                    old = ("uninit",) if nm in ("token.value", "token.token") else self.lookup(env2, nm)[0]
+                    old = ("uninit",) if nm in ("token.value", "token.token", "errorLine", "errorColumn", "errorString") \
+                        else self.lookup(env2, nm)[0]
                     if old[0] == "uninit" or old[0] == v[0] or {old[0], v[0]} <= {"ptr", "null"} or \
                             (old[0] == "bool" and v[0] == "cbool") or (old[0] == "cbool" and v[0] in ("bool", "cbool")):
                         pass
@@ -892,7 +913,10 @@ class Snippet:
         clash -= {"pos.pos", "pos.line", "token.value", "token.token", None}
         if clash:
             raise Refuse(f"{self.prefix}: locals of `{name}` shadow variables of the caller: {sorted(clash)}")
-        body = rename_ids(body, ren)
+        key = (name, tuple(sorted(ren.items())))
+        if key not in self.renamed:              # one copy per (function, binding): the loops inside stay ONE loop each
+            self.renamed[key] = rename_ids(body, ren) if ren else body
+        body = self.renamed[key]
         self.inlining.add(name)
         try:
             def leave(v, env2):                  # the caller goes on: the callee is no longer active
@@ -1008,11 +1032,13 @@ class Snippet:
                         return one(i + 1, self.declare(env4, name, ("outstart", src_name), ctx))
                     if ty == "char*" and v[0] == "outstart":         # char* dest = destBuffer;
                         return one(i + 1, self.declare(env3, name, ("out", "[]", v[1]), ctx))
-                    if ty == "char*" and v[0] in ("ptr", "null"):
+                    if ty == "char*" and v[0] in ("ptr", "null", "bptr"):
                         return one(i + 1, self.declare(env3, name, v, ctx))
                     if ty == "bool" and v[0] in ("cbool", "bool", "prop"):
                         if v[0] == "prop":
                             raise Refuse(f"{self.prefix}: bool initialised from a comparison")
+                        return one(i + 1, self.declare(env3, name, v, ctx))
+                    if ty == "int" and v[0] == "nat":
                         return one(i + 1, self.declare(env3, name, v, ctx))
                     if ty in ("int", "int64") and v[0] in ("int", "const"):
                         if v[0] == "int" and v[2] != ty:
@@ -1129,18 +1155,18 @@ class Snippet:
         def enter(env1):
             key = id(s)
             if key not in self.loops:
-                used = referenced_names(s, set())
+                used = referenced_names(s, set()) | self.always
                 if "pos" in used:
                     used |= {"pos.pos", "pos.line"}
                 visible = sorted(((order, n) for n, (v, order, depth) in env1.items()
                                   if ((n in used and n != flag and n != "token.value" and
-                                       v[0] in ("ptr", "bytes", "nat", "bool", "cbool", "out", "int", "uninit"))
+                                       v[0] in ("ptr", "bptr", "bytes", "nat", "bool", "cbool", "out", "int", "uninit", "const"))
                                       or (n == "token.token" and v[0] in ("byte", "const"))) and not n.startswith("$")))
                 last = [n for o, n in visible if n == self.last]
                 names = [n for o, n in visible if n != self.last] + last
                 name = f"{self.prefix}L{len(self.loops)}"
                 params = []
-                env_in = {n: v for n, v in env1.items() if v[0][0] in ("outbuf", "outstart") or n == "token.value"
+                env_in = {n: v for n, v in env1.items() if v[0][0] in ("outbuf", "outstart", "bstart", "opaque") or n == "token.value"
                           or (n == "token.token" and v[0][0] == "uninit")}
                 for n in names:
                     v, order, depth = env1[n]
@@ -1151,6 +1177,8 @@ class Snippet:
                     lean = self.role_name(n, kind, len(params))
                     if kind == "ptr":
                         sym, ty = ("ptr", lean, 0), "List Byte"
+                    elif kind == "bptr":
+                        sym, ty = ("bptr", lean, 0), "List Byte"
                     elif kind in ("bytes",):
                         sym, ty = ("bytes", lean), "List Byte"
                     elif kind == "out":
@@ -1217,7 +1245,8 @@ class Snippet:
     def run(self, stmts, entry_name, doc):
         env = {}
         for i, (n, kind, lean) in enumerate(self.externals):
-            v = {"ptr": ("ptr", lean, 0), "nat": ("nat", lean), "bytes": ("bytes", lean)}[kind]
+            v = {"ptr": ("ptr", lean, 0), "nat": ("nat", lean), "bytes": ("bytes", lean), "bptr": ("bptr", lean, 0),
+                 "bstart": ("bstart",), "opaque": ("opaque",)}[kind]
             env[n] = (v, i, 0)
         env["token.value"] = (("uninit", "Variant"), 9999, 0)
         env["token.token"] = (("uninit", "char"), 9998, 0)
@@ -1241,7 +1270,8 @@ class Snippet:
             if len(loopdefs) > 1:
                 out.append("end")
             out.append("")
-        ext = " ".join(f"({lean} : {'List Byte' if kind in ('ptr', 'bytes') else 'Nat'})" for _, kind, lean in self.externals)
+        ext = " ".join(f"({lean} : {'List Byte' if kind in ('ptr', 'bytes', 'bptr') else 'Nat'})"
+                       for _, kind, lean in self.externals if kind not in ("bstart", "opaque"))
         out.append(f"/-- {doc} -/")
         out.append(f"def {entry_name} (f : Nat) {ext} : {self.rtype} :=")
         out += pr(top, 1)
@@ -1397,6 +1427,31 @@ def translate(cpp_text):
     sn = Snippet("tok", "Res St", "Cxx.rdR", "Cxx.findR", tokext, "pos.pos", ret_whole)
     sn.functions = functions
     parts.append(sn.run(rt, "readToken", "`Json::Private::readToken`, the whole body (`skipSpace` executed in place)"))
+    assumed |= sn.assumed
+
+    # 6. syntaxError: the cursor is known by the bytes in front of it (nearest first) - the backwards walk to the line start
+    m = re.search(r"void\s+Json::Private::syntaxError\s*\(\s*const\s+Position\s*&\s*(\w+)\s*,\s*const\s+String\s*&\s*(\w+)\s*\)", src)
+    if not m:
+        raise Refuse("Json::Private::syntaxError(const Position&, const String&) not found")
+    body = function_body(src, r"void\s+Json::Private::syntaxError\s*\([^)]*\)", "Json::Private::syntaxError")
+    pn = m.group(1)
+
+    def fall_err(env, sn):
+        need = [env.get(n, (("uninit",),))[0] for n in ("errorLine", "errorColumn", "errorString")]
+        if any(v[0] == "uninit" for v in need):
+            raise Refuse("syntaxError: errorLine / errorColumn / errorString are not all assigned")
+        if need[2][0] != "opaque":
+            raise Refuse("syntaxError: errorString is not the message that was passed")
+        return f"Res.ok ({sn.lean_of(need[0])}, {sn.lean_of(need[1])})"
+
+    def no_ret(v, env, sn):
+        raise Refuse("syntaxError: return statement")
+    sn = Snippet("col", "Res (Nat × Nat)", "Cxx.rdR", "Cxx.findR",
+                 [(pn + ".line", "nat", "line"), (pn + ".pos", "bptr", "back"), ("start", "bstart", "_"), (m.group(2), "opaque", "_")],
+                 None, no_ret, fallthrough=fall_err)
+    sn.always = {pn + ".line", pn + ".pos"}
+    parts.append(sn.run(body, "syntaxError", "`Json::Private::syntaxError(pos, error)`: `back` = the bytes of the text in front of `pos.pos`, "
+                        "nearest first (`start` = where that list ends); result = (errorLine, errorColumn)"))
     assumed |= sn.assumed
 
     head = ("/- GENERATED by tools/gen_json.py (tools/gen_json_cxx.py) by TRANSLATING statements of src/Document/Json.cpp of the\n"
